@@ -57,6 +57,10 @@ type VerifNodeStatus struct {
 	LastIndex      uint64 `json:"last_index"`
 	LastSnapIndex  uint64 `json:"last_snap_index"`
 	Stopping       bool   `json:"stopping"`
+	// raft storage's snapshot: index and number of voters in its ConfState (a snapshot
+	// without voters leaves a restarted replica without a configuration)
+	SnapIndex  uint64 `json:"snap_index"`
+	SnapVoters int    `json:"snap_voters"`
 }
 
 func (nn *NamespaceNode) VerifStatus() VerifNodeStatus {
@@ -81,6 +85,10 @@ func (nn *NamespaceNode) VerifStatus() VerifNodeStatus {
 	if s := nd.rn.raftStorage; s != nil {
 		if li, err := s.LastIndex(); err == nil {
 			st.LastIndex = li
+		}
+		if sn, err := s.Snapshot(); err == nil {
+			st.SnapIndex = sn.Metadata.Index
+			st.SnapVoters = len(sn.Metadata.ConfState.Nodes)
 		}
 	}
 	return st
